@@ -191,3 +191,27 @@ func Join(toks []Token) string {
 	}
 	return sb.String()
 }
+
+var oddTexts int
+
+// ResetParserCache drops the adaptive-prediction DFAs of DAWGS's generated parser. They live in
+// package-level static data shared by every parser instance and only grow: odd texts (grammar
+// derivations, token mutations) add states no later text reuses - megabytes per text, gigabytes per
+// process over a long run, times the shards of the thorough tier. The DFAs are a cache; the slice the
+// interpreter hands out is the static one, so replacing its elements resets it. Call only between
+// cases, from the goroutine that parses.
+func ResetParserCache() {
+	p := parser.NewCypherParser(antlr.NewCommonTokenStream(parser.NewCypherLexer(antlr.NewInputStream("")), antlr.TokenDefaultChannel))
+	atn, dfas := p.GetATN(), p.GetInterpreter().DecisionToDFA()
+	for i := range dfas {
+		dfas[i] = antlr.NewDFA(atn.DecisionToState[i], i)
+	}
+}
+
+// OddTextParsed is called by generators of unusual texts once per case; every 400th call resets the
+// parser's DFA cache so that long runs stay within memory.
+func OddTextParsed() {
+	if oddTexts++; oddTexts%400 == 0 {
+		ResetParserCache()
+	}
+}
